@@ -121,6 +121,8 @@ class Fresh:
 
 
 CUTOFF = math.exp(-10.0)
+# factor between params['hazemix'] and the haze's own abundance parameter (see new_contrib)
+HAZE_UNIT = dict(flat=3e-5, lee=1e13)
 
 
 def same_rel(a, b):
@@ -334,17 +336,25 @@ def hazes(ctx):
     """The remaining built-in sources (grey and Lee hazes) obey the same composition rules, also after a
     change of their own parameters on a long-lived model."""
     for kind, pname in (('flat', 'flat_mix_ratio'), ('lee', 'lee_mie_mix_ratio')):
-        params = dict(cloudP=1e2, mix=MIX[0], T=1000.0, hazemix=3e-27)
+      # second family: the source starts with identically ZERO opacity (abundance 0), is evaluated, and is switched on later
+      for start, steps in ((3e-27, [('model', None), ('set', 2.0), ('fullc', None), ('contrib', None), ('set', 0.5), ('model', None)]),
+                           (0.0, [('model', None), ('set', 3e-27), ('fullc', None), ('contrib', None), ('model', None), ('set', 0.0), ('fullc', None),
+                                  ('set', 5e-27), ('contrib', None)])):
+        params = dict(cloudP=1e2, mix=MIX[0], T=1000.0, hazemix=start)
         for added in (['abs', kind, 'ray'], [kind, 'cia', 'abs'], ['ray', 'abs', 'cloud', kind]):
             m = build_model(added, params)
-            vec = dict(added=added, haze=kind)
-            steps = [('model', None), ('set', 2.0), ('fullc', None), ('contrib', None), ('set', 0.5), ('model', None)]
+            vec = dict(added=added, haze=kind, start=start)
             cur = dict(params)
+            unit = (m[pname] / start) if start else None
             for op, arg in steps:
-                cls = 'haze:%s:%s' % (kind, op)
+                cls = 'haze:%s:%s%s' % (kind, op, '' if start else ':from-zero')
                 if op == 'set':
-                    cur['hazemix'] = cur['hazemix'] * arg
-                    m[pname] = m[pname] * arg
+                    if start:
+                        cur['hazemix'] = cur['hazemix'] * arg
+                        m[pname] = m[pname] * arg
+                    else:
+                        cur['hazemix'] = arg
+                        m[pname] = arg * HAZE_UNIT[kind]
                     continue
                 ref_m = build_model(added, cur)
                 refT = np.asarray(ref_m.model()[2], dtype=float)
